@@ -31,7 +31,7 @@ def parseTz (s : String) : Option TzCfg :=
 
 def showStatus : Status → String
   | .ok => "ok" | .errNoMatch => "err:nomatch" | .errColumn => "err:column"
-  | .errUnsupported => "err:unsupported" | .panicNil => "panic:nil" | .panicSlice => "panic:slice"
+  | .errUnsupported => "err:unsupported" | .errReader => "err:reader" | .errTime => "err:time" | .panicNil => "panic:nil" | .panicSlice => "panic:slice"
   | .panicOther => "panic:other" | .fuel => "model:fuel" | .unmodelled => "model:unmodelled"
 
 def isFloatTy : Ty → Bool
@@ -54,7 +54,7 @@ def showChunks (cfg : Config) (cs : List (List Row)) : String :=
 def showResult (cfg : Config) (r : LoadResult) : String :=
   let n := (r.chunks.map List.length).sum
   let rep := match r.status with
-    | .errNoMatch | .errColumn | .errUnsupported => "1"
+    | .errNoMatch | .errColumn | .errUnsupported | .errReader | .errTime => "1"
     | _ => "0"
   s!"{showStatus r.status} {showChunks cfg r.chunks} N={n} R={rep}"
 
@@ -93,25 +93,22 @@ def csvloadOp : Op := fun args =>
         let n := header.length
         let data := records.filter (fun r => !isBlank r)
         let readerBad := data.any (fun r => r.length != n || hasBareQuote r)
-        let tzOk := match tz with | .zone _ => true | .empty => fmt == .layout | .invalid => false
-        let timeBad := !tzOk || data.any (fun r => (timeOf cfg (r.getD 0 [])).isNone)
+        -- no zone configured means UTC (for both time formats)
+        let tzOk := match tz with | .zone _ => true | .empty => true | .invalid => false
         let hasBool := schema.any (fun c => c.2 == .bool)
         let rows := data.map (specRow cfg n idx)
         if k == 0 then s!"M:{m}\tH:"
+        -- no data row: nothing to load and nothing to report, whatever the zone or the column types
+        else if data.isEmpty then s!"M:{m}\tS:ok - N=0 R=0\tH:"
         else if rows.all Option.isSome && !hasBool && tzOk then
           let want := chunked k (data.length + 1) (rows.filterMap id)
           let tot := data.length
           s!"M:{m}\tS:ok {showChunks cfg want} N={tot} R=0\tH:"
         else
-          let tzTs := !tzOk && fmt == .timestamp && tz matches .empty
-          let hyps : List String :=
-            (if readerBad then ["reader_error_treated_as_eof"] else []) ++
-            (if tzTs then ["timestamp_format_without_timezone"] else
-             if res.status == .panicSlice then ["short_time_field_after_tuning"] else
-             if timeBad then ["time_columns_unreadable"] else [])
-          -- the documented extended time format (tuning) rescued the rows: the property is silent
-          if res.status == .ok && !readerBad then s!"M:{m}\tH:"
-          else s!"M:{m}\tS:~R=1\tH:{",".intercalate hyps}"
+          -- some record is malformed (or the zone unusable): an error must be reported, unless the
+          -- documented extended time format (tuning) made the rows readable: then the property is silent
+          if res.status == .ok && !readerBad && !hasBool && tzOk then s!"M:{m}\tH:"
+          else s!"M:{m}\tS:~R=1\tH:"
       | _ => s!"M:{m}\tH:"
     | _, _, _, _, _, _ => badArgs
   | _ => badArgs
